@@ -728,7 +728,264 @@ theorem where_selects_exactly (re : Bytes → Bytes → Bool) (c : Cfg) (fin fno
       · exact Or.inr (h4 x hx he)
       · exact Or.inl rfl
 
+/-! ### parentheses of the skeleton balance -/
+
+/-- depth after reading `b` starting at depth `d`; `none` if a `)` closes below zero -/
+def bal : Nat → Bytes → Option Nat
+  | d, [] => some d
+  | d, c :: r =>
+    if c = 40 then bal (d + 1) r
+    else if c = 41 then (match d with | 0 => none | d' + 1 => bal d' r)
+    else bal d r
+
+/-- reading `b` at any depth ≥ i is fine and moves the depth from `d+i` to `d+o` -/
+def St (b : Bytes) (i o : Nat) : Prop := ∀ d, bal (d + i) b = some (d + o)
+
+theorem bal_append (a b : Bytes) : ∀ d, bal d (a ++ b) = (bal d a).bind (fun e => bal e b) := by
+  induction a with
+  | nil => intro d; simp [bal]
+  | cons c a ih =>
+    intro d
+    simp only [List.cons_append, bal]
+    split
+    · exact ih _
+    · split
+      · cases d with
+        | zero => simp
+        | succ d' => exact ih _
+      · exact ih _
+
+theorem St_append {a b : Bytes} {i m o : Nat} (ha : St a i m) (hb : St b m o) : St (a ++ b) i o := by
+  intro d; rw [bal_append, ha d]; exact hb d
+
+theorem St_shift {a : Bytes} {i o : Nat} (k : Nat) (h : St a i o) : St a (i + k) (o + k) := by
+  intro d
+  have := h (d + k)
+  rw [show d + (i + k) = d + k + i by omega, show d + (o + k) = d + k + o by omega]
+  exact this
+
+theorem bal_shift : ∀ (a : Bytes) (i o : Nat), bal i a = some o → ∀ d, bal (d + i) a = some (d + o) := by
+  intro a
+  induction a with
+  | nil => intro i o h d; simp [bal] at h ⊢; omega
+  | cons c a ih =>
+    intro i o h d
+    simp only [bal] at h ⊢
+    split
+    · rename_i hc; simp only [hc, if_true] at h; exact ih _ _ h d
+    · rename_i hc
+      simp only [hc, if_false] at h
+      split
+      · rename_i hc2
+        simp only [hc2, if_true] at h
+        cases i with
+        | zero => simp at h
+        | succ i' =>
+          simp only at h
+          have := ih _ _ h d
+          rw [show d + (i' + 1) = (d + i') + 1 by omega]
+          exact this
+      · rename_i hc2; simp only [hc2, if_false] at h; exact ih _ _ h d
+
+theorem St_of_bal {a : Bytes} {i o : Nat} (h : bal i a = some o) : St a i o := bal_shift a i o h
+
+/-- no parenthesis at all -/
+def NoP (b : Bytes) : Prop := ∀ c ∈ b, c ≠ 40 ∧ c ≠ 41
+instance (b : Bytes) : Decidable (NoP b) := inferInstanceAs (Decidable (∀ c ∈ b, c ≠ 40 ∧ c ≠ 41))
+
+theorem St_of_NoP {b : Bytes} (h : NoP b) (i : Nat) : St b i i := by
+  induction b with
+  | nil => intro d; rfl
+  | cons c b ih =>
+    intro d
+    have hc := h c (by simp)
+    simp only [bal, hc.1, hc.2, if_false]
+    exact ih (fun x hx => h x (by simp [hx])) d
+
+theorem NoP_nil : NoP [] := by simp [NoP]
+theorem NoP_append {a b : Bytes} (ha : NoP a) (hb : NoP b) : NoP (a ++ b) := by
+  intro c hc; rcases List.mem_append.mp hc with h | h
+  · exact ha c h
+  · exact hb c h
+theorem NoP_cons {c : UInt8} {b : Bytes} (hc : c ≠ 40 ∧ c ≠ 41) (hb : NoP b) : NoP (c :: b) := by
+  intro x hx; rcases List.mem_cons.mp hx with h | h
+  · exact h ▸ hc
+  · exact hb x h
+
+theorem digit_ne_p : ∀ k, k < 10 → (48 + k).toUInt8 ≠ 40 ∧ (48 + k).toUInt8 ≠ 41 := by decide
+
+theorem NoP_digitsAux : ∀ (fuel n : Nat) (acc : Bytes), NoP acc → NoP (digitsAux fuel n acc) := by
+  intro fuel
+  induction fuel with
+  | zero => intro n acc h; simpa [digitsAux] using h
+  | succ k ih =>
+    intro n acc h
+    simp only [digitsAux]
+    split
+    · exact NoP_cons (digit_ne_p n ‹_›) h
+    · exact ih _ _ (NoP_cons (digit_ne_p _ (Nat.mod_lt _ (by decide))) h)
+
+theorem NoP_natBytes (n : Nat) : NoP (natBytes n) := NoP_digitsAux _ _ _ NoP_nil
+
+theorem NoP_itoa (i : Int) : NoP (itoa i) := by
+  simp only [itoa]
+  split
+  · exact NoP_cons (by decide) (NoP_natBytes _)
+  · exact NoP_natBytes _
+
+theorem NoP_commaInts : ∀ l : List Int, NoP (commaInts l)
+  | [] => NoP_nil
+  | [a] => by simpa [commaInts] using NoP_itoa a
+  | a :: b :: rest => by
+    simp only [commaInts]
+    exact NoP_append (NoP_itoa a) (NoP_cons (by decide) (NoP_commaInts (b :: rest)))
+
+theorem NoP_skel_commaLits : ∀ vals : List Bytes, NoP (skel (commaLits vals))
+  | [] => NoP_nil
+  | [a] => by simpa [commaLits, skel] using NoP_cons (c := 63) (by decide) NoP_nil
+  | a :: b :: rest => by
+    simp only [commaLits, skel, List.cons_append, List.nil_append]
+    exact NoP_cons (by decide) (NoP_cons (by decide) (NoP_skel_commaLits (b :: rest)))
+
+theorem St_opText (neg : Bool) (i : Nat) : St (opText neg) i i := by
+  have : St (opText neg) 0 0 := by cases neg <;> exact St_of_bal (by decide)
+  simpa using St_shift i this
+theorem St_notText (neg : Bool) (i : Nat) : St (notText neg) i i := by
+  have : St (notText neg) 0 0 := by cases neg <;> exact St_of_bal (by decide)
+  simpa using St_shift i this
+theorem St_sepText (b : Bool) (i : Nat) : St (sepText b) i i := by
+  have : St (sepText b) 0 0 := by cases b <;> exact St_of_bal (by decide)
+  simpa using St_shift i this
+
+theorem St_colInt (c : Cfg) (x i : Nat) : St (colInt c x) i i := by
+  apply St_of_NoP
+  simp only [colInt]
+  split
+  · decide
+  · exact NoP_append (by decide) (NoP_natBytes x)
+
+theorem St_colStr (x i : Nat) : St (colStr x) i i :=
+  St_of_NoP (NoP_append (by decide) (NoP_natBytes x)) i
+
+theorem St_raw64Expr (c : Cfg) (x : Nat) : St (raw64Expr c x) 0 0 := by
+  simp only [raw64Expr]
+  exact St_append (St_append (St_append (St_append (St_of_bal (i := 0) (o := 4) (by decide)) (St_colInt c _ 4))
+    (St_of_bal (i := 4) (o := 2) (by decide))) (St_colInt c _ 2)) (St_of_bal (i := 2) (o := 0) (by decide))
+
+theorem St_whereIntExpr (c : Cfg) (x i : Nat) : St (whereIntExpr c x) i i := by
+  have : St (whereIntExpr c x) 0 0 := by
+    simp only [whereIntExpr]
+    split
+    · exact St_of_bal (by decide)
+    · split
+      · split
+        · exact St_of_NoP (NoP_append (by decide) (NoP_natBytes x)) 0
+        · exact St_raw64Expr c x
+      · exact St_colInt c x 0
+  simpa using St_shift i this
+
+theorem St_atom (intE strE : Bytes) (hi : ∀ i, St intE i i) (hs : ∀ i, St strE i i) (a : Atom) :
+    St (skel (a.frags intE strE)) 0 0 := by
+  have open1 : St (str "(") 0 1 := St_of_bal (by decide)
+  have close1 : St (str ")") 1 0 := St_of_bal (by decide)
+  cases a with
+  | constF => simpa [Atom.frags, skel] using (St_of_bal (i := 0) (o := 0) (a := str "0!=0") (by decide))
+  | constT => simpa [Atom.frags, skel] using (St_of_bal (i := 0) (o := 0) (a := str "0=0") (by decide))
+  | intIn neg ids =>
+    simp only [Atom.frags, skel, List.append_nil]
+    exact St_append (St_append (St_append (St_append (hi 0) (St_opText neg 0)) open1) (St_of_NoP (NoP_commaInts ids) 1)) close1
+  | strIn neg vals =>
+    simp only [Atom.frags, skel, skel_append, List.append_nil]
+    exact St_append (St_append (St_append (hs 0) (St_opText neg 0)) open1)
+      (St_append (St_of_NoP (NoP_skel_commaLits vals) 1) close1)
+  | reMatch neg re =>
+    simp only [Atom.frags, skel, List.append_nil]
+    have h1 : St (notText neg ++ str "match(" ++ strE ++ str ",") 0 1 :=
+      St_append (St_append (St_append (St_notText neg 0) (St_of_bal (i := 0) (o := 1) (by decide))) (hs 1))
+        (St_of_bal (i := 1) (o := 1) (by decide))
+    have h2 : St (63 :: str ")") 1 0 := St_of_bal (by decide)
+    exact St_append h1 h2
+  | isEmpty neg raw =>
+    cases raw with
+    | true =>
+      simp only [Atom.frags, skel, if_true, List.append_nil]
+      exact St_append (St_append (St_append (St_notText neg 0) open1) (hi 1)) (St_of_bal (i := 1) (o := 0) (by decide))
+    | false =>
+      simp only [Atom.frags, skel, Bool.false_eq_true, if_false, List.append_nil]
+      have h1 : St (notText neg ++ str "(" ++ intE ++ str "=0 AND " ++ strE ++ str "=") 0 1 :=
+        St_append (St_append (St_append (St_append (St_append (St_notText neg 0) open1) (hi 1))
+          (St_of_bal (i := 1) (o := 1) (by decide))) (hs 1)) (St_of_bal (i := 1) (o := 1) (by decide))
+      have h2 : St (63 :: str ")") 1 0 := St_of_bal (by decide)
+      exact St_append h1 h2
+
+theorem St_joinFrags (sep : Bytes) (hsep : St sep 0 0) : ∀ l : List (List Frag), (∀ a ∈ l, St (skel a) 0 0) →
+    St (skel (joinFrags sep l)) 0 0
+  | [], _ => by intro d; rfl
+  | [a], h => by simpa [joinFrags] using h a (by simp)
+  | a :: b :: rest, h => by
+    simp only [joinFrags, skel_append, skel]
+    exact St_append (h a (by simp)) (St_append hsep (St_joinFrags sep hsep (b :: rest) (fun x hx => h x (by simp [hx]))))
+
+theorem St_tagFrags (c : Cfg) (isIn : Bool) (x : Nat) (f : TagFilter) : St (skel (tagFrags c isIn x f)) 0 0 := by
+  simp only [tagFrags]
+  split
+  · intro d; rfl
+  · simp only [skel, skel_append, List.append_nil]
+    have inner := St_joinFrags (sepText isIn) (St_sepText isIn 0)
+      ((tagAtoms isIn (isRaw c x) f).map (Atom.frags (whereIntExpr c x) (colStr x))) (by
+        intro a ha
+        obtain ⟨at', _, rfl⟩ := List.mem_map.mp ha
+        exact St_atom _ _ (St_whereIntExpr c x) (St_colStr x) at')
+    have inner1 := St_shift 1 inner
+    exact St_append (St_of_bal (i := 0) (o := 1) (by decide)) (St_append (by simpa using inner1) (St_of_bal (i := 1) (o := 0) (by decide)))
+
+theorem St_flatMap {α} (g : α → List Frag) (hg : ∀ x, St (skel (g x)) 0 0) : ∀ l : List α, St (skel (l.flatMap g)) 0 0
+  | [] => by intro d; rfl
+  | x :: l => by
+    simp only [List.flatMap_cons, skel_append]
+    exact St_append (hg x) (St_flatMap g hg l)
+
+theorem St_metricFrags (c : Cfg) : St (skel (metricFrags c)) 0 0 := by
+  have close1 : St (str ")") 1 0 := St_of_bal (by decide)
+  simp only [metricFrags, metricList]
+  split
+  · simp only [skel, List.append_nil]
+    exact St_append (St_of_bal (i := 0) (o := 0) (by decide)) (St_of_NoP (NoP_itoa _) 0)
+  · rw [skel_append]
+    refine St_append (m := 0) ?_ ?_
+    · split
+      · intro d; rfl
+      · simp only [skel, List.append_nil]
+        exact St_append (St_append (St_of_bal (i := 0) (o := 1) (by decide)) (St_of_NoP (NoP_commaInts _) 1)) close1
+    · split
+      · intro d; rfl
+      · simp only [skel, List.append_nil]
+        exact St_append (St_append (St_of_bal (i := 0) (o := 1) (by decide)) (St_of_NoP (NoP_commaInts _) 1)) close1
+
+/-- **Well-formedness (parentheses).** In the where text outside the literals, parentheses balance and no `)` closes
+    below depth zero — for every configuration and all filters. -/
+theorem where_skeleton_balanced (c : Cfg) (fin fnotin : Filters) : bal 0 (skel (whereFrags c fin fnotin)) = some 0 := by
+  have base : St (skel (baseFrags c)) 0 0 := by
+    simp only [baseFrags, skel]
+    have h1 : St (str " WHERE time>=" ++ itoa c.fromSec ++ str " AND time<" ++ itoa c.toSec ++
+        str " AND index_type=0 AND pre_tag=0 AND pre_stag=") 0 0 :=
+      St_append (St_append (St_append (St_append (St_of_bal (i := 0) (o := 0) (by decide)) (St_of_NoP (NoP_itoa _) 0))
+        (St_of_bal (i := 0) (o := 0) (by decide))) (St_of_NoP (NoP_itoa _) 0)) (St_of_bal (i := 0) (o := 0) (by decide))
+    exact St_append h1 (St_of_bal (i := 0) (o := 0) (by decide))
+  have h : St (skel (whereFrags c fin fnotin)) 0 0 := by
+    simp only [whereFrags, skel_append, tagFilterFrags]
+    exact St_append (St_append (St_append base (St_metricFrags c))
+      (St_flatMap _ (fun x => St_tagFrags c true x _) _)) (St_flatMap _ (fun x => St_tagFrags c false x _) _)
+  simpa using h 0
+
+
 /-! ### non-vacuity and negative witnesses -/
+
+/-- a `)` below depth zero is rejected, an unclosed `(` leaves depth 1: `bal` is not trivially `some 0` -/
+example : bal 0 (str "a)(") = none := by decide
+example : bal 0 (str "(a") = some 1 := by decide
+
+
 
 /-- hostile string `\' OR 1=1 --` : escaped, lexed, recovered; the rest of the query is untouched -/
 example : unlit (q :: (escape (str "\\' OR 1=1 --") ++ q :: str ")")) = some (str "\\' OR 1=1 --", str ")") := by decide
